@@ -1,6 +1,7 @@
 """property id -> harness modules (engine X: CrossHair) and z modules (engine Z: z3)"""
 PROPS = {
     'C06': {'harness': ['harness/C06_sem.py']},
+    'C09': {'harness': ['harness/C09_upload.py']},
     'C10': {'harness': ['harness/C10_state.py']},
     'C17': {'harness': ['harness/C17_subst.py']},
 }
